@@ -263,9 +263,28 @@ def run(ctx):
                 big['Qf'] = Xb.tolist()
                 items.append((big, 'structural', {}))
                 meta.append(('negative', f'{enc}-large-{where}'))
+        # (i'') raw counts that are not integers (tenths): the statement's "bitwise" covers them too (known finding F27)
+        for k_ in range(8):
+            fb = maptrace.gen_scenario(rng, max_levels=2, max_leaves=4, min_leaves=2, G=10, vmax=9, ncell=20,
+                                       cfg={'drop': None, 'flatten': False, 'norm': 'raw', 'B': 1, 'fnum': 1, 'fden': 1})
+            if len(fb['tree']['nodes'][0]) == 1:
+                fb['tree'] = maptrace.random_tree(rng, 1, 4, 2)
+                fb['means'] = {str(l): [rng.randint(0, 9) for _ in range(fb['G'])] for l in fb['tree']['nodes'][-1]}
+                fb['markers'] = {'0/0': fb['markers']['0/0']}
+            safe_markers(rng, fb)
+            fb['Qf'] = [[rng.randint(1, 97) * 0.1 for _ in fb['qgenes']] for _ in fb['cells']]
+            items.append((fb, 'structural', {}))
+            meta.append(('fracbase', None))
+            img = copy.deepcopy(fb)
+            perm = list(range(len(fb['qgenes'])))[::-1]
+            img['qgenes'] = [fb['qgenes'][i] for i in perm]
+            img['Q'] = [[row[i] for i in perm] for row in fb['Q']]
+            img['Qf'] = [[row[i] for i in perm] for row in fb['Qf']]
+            items.append((img, 'structural', {}))
+            meta.append(('perm_rawfrac', 'order_bits'))
         rs = relations.run_many(ctx, items)
         pairs = []
-        base = rawbase = None
+        base = rawbase = fracbase = None
         und_total = 0
         for r, (kind, arg) in zip(rs, meta):
             if kind == 'base':
@@ -275,13 +294,16 @@ def run(ctx):
                 rawbase = r
                 rawL = arg
                 continue
+            if kind == 'fracbase':
+                fracbase = r
+                continue
             ctx.count({'s': r['scn'], 'kind': kind}, nontrivial=True)
             if kind == 'negative':
                 if r['ok'] or r.get('has_results'):
                     ctx.report('negative-raw-accepted', f'raw input with a negative value was mapped '
                                f'(encoding {arg}): ok={r["ok"]}', {'scn': r['scn'], 'scheme': r['scheme']})
                 continue
-            ref = rawbase if kind in ('declared', 'scaled') else base
+            ref = rawbase if kind in ('declared', 'scaled') else fracbase if kind == 'perm_rawfrac' else base
             if not ref['ok'] or not r['ok']:
                 ctx.report('pair:run-failed', f'{kind}: base ok={ref["ok"]} ({ref["error"]}) image ok='
                            f'{r["ok"]} ({r["error"]})', {'base': ref['scn'], 'img': r['scn']})
@@ -300,11 +322,20 @@ def run(ctx):
                 ctx.report(f'markers-differ:{kind}', 'reported marker_genes differ between the two runs',
                            {'base': ref['scn'], 'img': r['scn']})
         rej = 0
+        again = []
         for p, v in relations.decide(ctx, pairs, 'Relations_Trace_c07'):
             if not v['accepted']:
                 rej += 1
                 ctx.report(f'clause:{v["inv"]}:{p["kind"]}', f'{relations.CL.get(v["inv"])} ({p["kind"]})',
                            {'base': p['b'], 'img': p['i'], 'scheme': p['scheme']})
+                if p['kind'] == 'perm_rawfrac':
+                    again.append(dict(p, rel='join_close', kind='perm_rawfrac_beyond_rounding'))
+        # the known finding F27 covers last-bit differences only: anything beyond rounding is reported on its own
+        if again:
+            for p, v in relations.decide(ctx, again, 'Relations_Trace_c07_rawfrac'):
+                if not v['accepted']:
+                    ctx.report(f'clause:{v["inv"]}:{p["kind"]}', f'{relations.CL.get(v["inv"])} ({p["kind"]})',
+                               {'base': p['b'], 'img': p['i'], 'scheme': p['scheme']})
         if pairs:
             ctx.sample({'kind': pairs[0]['kind'], 'rel': pairs[0]['rel'], 'base_first': pairs[0]['base'][:1],
                         'image_first': pairs[0]['image'][:1]})
